@@ -444,10 +444,10 @@ def gen(rng, tier):
         cases.append(["enc 0 " + tk, "rt 0 " + tk, "rt 1 " + tk])
     cases.append(["enc 0 T 6162", "rt 0 T 6162", "enc 1 T 26", "rt 1 T 26", "enc 0 E - 0 0", "rt 0 E - 0 0"])
     cases = cases + fmt1 + other
-    # 8. deeply nested documents built inside the harness / driver (kind 0: closed, 1: closed then a mismatched end tag so that
+    # 8. deeply nested documents built inside the harness / driver (kind 0: closed, 3: closed around the text "x" — text() walks the whole chain, 1: closed then a mismatched end tag so that
     #    the tree is destroyed inside decode, 2: unclosed)
     for n in ([0, 1, 2, 12, 13, 1000, 300000] if quick else [0, 1, 2, 12, 13, 1000, 50000, 300000, 1000000]):
-        cases.append(["deep %d %d" % (n, k) for k in (0, 1, 2)])
+        cases.append(["deep %d %d" % (n, k) for k in (0, 1, 2, 3)])
     return cases
 
 
@@ -512,8 +512,17 @@ def is_blank(s):
     return all(c in WS for c in s)
 
 
+def text_of(t):
+    """Xml::text(): a text node's text; for an element the text at the end of its first-child chain, else empty"""
+    while t[0] == "E":
+        if not t[3]:
+            return b""
+        t = t[3][0]
+    return t[1]
+
+
 def dump_root(t):
-    return "R+" + dump(t)
+    return "R+" + dump(t) + " t=" + hexs(text_of(t))
 
 
 def dump(t):
@@ -663,7 +672,11 @@ def reference(line):
             return dump_root(pre[int(t[2]) % len(pre)])   # the survivor has no parent; its subtree is intact
         if t[0] == "deep":
             n = int(t[1])
-            return "deep depth=%d nodes=%d badparents=0" % (n, n) if t[2] == "0" and n > 0 else "deep null"
+            if t[2] == "0" and n > 0:
+                return "deep depth=%d nodes=%d badparents=0 text=-" % (n, n)
+            if t[2] == "3" and n > 0:
+                return "deep depth=%d nodes=%d badparents=0 text=78" % (n + 1, n + 1)
+            return "deep null"
         if t[0] in ("rt", "enc"):
             tr, n = parse_tokens(t, 2)
             if n != len(t) or tr[0] != "E" or not tree_names_ok(tr):
